@@ -379,6 +379,9 @@ func (in *Interp) stmt(fr *frame, s gen.Stmt) ctl {
 	case *gen.Print:
 		in.out.WriteString(Format(in.eval(fr, s.X)))
 		in.out.WriteString("\n")
+		if in.out.Len() > 8<<20 { // such a program is of no use as a test case (and would exhaust memory)
+			panic(errBudget)
+		}
 	case *gen.CallStmt:
 		in.call(fr, s.C)
 	case *gen.Block:
@@ -903,7 +906,15 @@ func (in *Interp) binary(op string, l, r Value) Value {
 			return a >> uint(n)
 		}
 	case "concat":
-		return concat(l, r)
+		v := concat(l, r)
+		// values that double in a loop outgrow any memory long before the step budget ends
+		if t, ok := v.(string); ok && len(t) > 1<<20 {
+			panic(errBudget)
+		}
+		if lst, ok := v.(*List); ok && len(lst.Elems) > 1<<16 {
+			panic(errBudget)
+		}
+		return v
 	case "index":
 		n := asInt(r)
 		switch c := l.(type) {
